@@ -29,7 +29,7 @@ REAL = {
     "argo": ["pressure_increasing_test", "speed_test"],
     "axds": ["valid_range_test"],
 }
-UNKNOWN_MODULES = ["nosuch", "qartodx", "gliderz"]
+UNKNOWN_MODULES = ["nosuch", "qartodx", "gliderz", "qartod_v1.1", "contrib.x", "qartod.x"]
 UNKNOWN_TESTS = ["no_such_test", "gross_range", "spike"]
 
 
